@@ -727,6 +727,14 @@ func (c *FnCtx) frameFact(guard *Term, fam, srt string, old, nv *Term) {
 		if l.mapT != nil {
 			continue
 		}
+		if l.anyObj {
+			for k := l.lo; k < l.hi; k++ {
+				if heapFam(l.root, k) == fam {
+					return
+				}
+			}
+			continue
+		}
 		match := false
 		for k := l.lo; k < l.hi; k++ {
 			if heapFam(l.root, k) == fam {
